@@ -309,9 +309,28 @@ def _sig_footnote_starts_with_list(case: dict, f: Failure) -> bool:
     return _re.search(r"^[ \t>]*\[\^[^\]\n]+\]:[ \t]*(?:[-*+]|\d{1,9}[.)])(?:[ \t]|$)", case["text"], _re.M) is not None
 
 
+def _sig_pipe_line_under_table(case: dict, f: Failure) -> bool:
+    """A line that holds nothing but "|" directly under a table: for Marko it is not a row (no cell) and starts a paragraph
+    right under the table; flowmark keeps the two adjacent, and once the paragraph's words are joined to "| a a" that line
+    reads as a table row."""
+    if case.get("kind", "doc") != "doc":
+        return False
+    return _re.search(r"\|[^\n]*\n[ \t>]*\|[ \t]*\n", case["text"] + "\n") is not None
+
+
+def _sig_open_link_paren_before_two_space_break(case: dict, f: Failure) -> bool:
+    """Text like "[](()" (a link opener whose parenthesis is not closed on its line) directly before a hard line break written
+    with two spaces: normalising the break to a backslash lets Marko read a destination that runs across the line end."""
+    if case.get("kind", "doc") != "doc":
+        return False
+    return _re.search(r"\]\((?:[^()\n]|\([^()\n]*\))*[ \t]{2,}\n", case["text"]) is not None
+
+
 DECOMPOSE_KEY = "text"  # several recorded findings in one document: see core.sig_hit
 
 SIGS = {
+    "pipe_line_under_table": _sig_pipe_line_under_table,
+    "open_link_paren_before_two_space_break": _sig_open_link_paren_before_two_space_break,
     "footnote_starts_with_list": _sig_footnote_starts_with_list,
     "table_first_block_of_list_item": _sig_table_first_in_item,
     "block_like_line_next_to_tag_line": _sig_block_like_line_next_to_tag_line,
